@@ -17,6 +17,7 @@ import itertools
 from collections import Counter
 
 from .common import *
+from ..pred import negate as negate_pred, npred, resolve, conj
 
 EXPLANATION = __doc__
 AN = "sempler.anm.ANM."
@@ -249,6 +250,31 @@ def run(prog, rep, tier):
         keep = (e, ("ext", "copy.deepcopy", (e,), ()))
         ok = (c == isnone and x == null and y in keep) or (c == notnone and y == null and x in keep)
         ok = ok and a[3][0][1] == ("param", "assignments")
+    elif a and a[0] == "after" and a[1] in Sc.loopinfo:
+        # the same list built by a loop with append: one element per assignment, in order
+        li_ = Sc.loopinfo[a[1]]
+        e = ("elem", ("param", "assignments"))
+        apps_ = [c_ for c_ in Sc.select("call", qname=fc.qname) if c_.callkind == "method" and c_.target == ".append" and a[1] in c_.loops]
+        null = ("fn", "sempler.functions.null")
+        keep = (e, ("ext", "copy.deepcopy", (e,), ()))
+        if li_["iter"] == ("param", "assignments") and li_["init"].get(a[2]) == ("list", ()) and len(apps_) == 1 and apps_[0].recv == ("mu", a[1], a[2]) and len(apps_[0].loops) == 1:
+            v = apps_[0].args[0]
+            if v[0] == "phi":
+                c, x, y = v[1], v[2], v[3]
+                ok = (c == ("cmp", "is", e, ("const", None)) and x == null and y in keep) or (c == ("cmp", "is not", e, ("const", None)) and y == null and x in keep)
+        if not ok:
+            apps2 = [c_ for c_ in Sc.select("call", qname=fc.qname) if c_.callkind == "method" and c_.target == ".append" and a[1] in c_.loops]
+            if li_["iter"] == ("param", "assignments") and len(apps2) == 2:
+                # if fun is None: lst.append(null) else: lst.append(deepcopy(fun))
+                conds = [(resolve(conj(c_.path)), c_.args[0]) for c_ in apps2]
+                isn = npred(("cmp", "is", e, ("const", None)), True)
+                vals = {}
+                for cs_, v_ in conds:
+                    if isn in cs_:
+                        vals["none"] = v_
+                    elif negate_pred(isn) in cs_:
+                        vals["other"] = v_
+                ok = vals.get("none") == null and vals.get("other") in keep
     rep.check("NULL.subst", ok, fwhere(fc), "None assignments are replaced by functions.null, the others kept in place", "None is not mapped to functions.null")
     fn = need(prog, "sempler.functions.null")
     Sn = Sym(prog)
